@@ -53,6 +53,7 @@ type loopInfo struct {
 	body   map[*ssa.BasicBlock]bool
 	invs   []*Clause
 	decs   []*Clause
+	iters  []*Clause // "loop k iteration ensures E": checked at every back edge in the state of the iteration that ends
 	m0     [][]string // measures at header, per decreases clause
 	hstate *State
 }
@@ -1427,6 +1428,8 @@ func (e *FEnc) findLoops() {
 						li.invs = append(li.invs, c)
 					} else if c.Kind == "decreases" {
 						li.decs = append(li.decs, c)
+					} else if c.Kind == "iterensures" {
+						li.iters = append(li.iters, c)
 					}
 				}
 			}
@@ -1952,12 +1955,25 @@ func (e *FEnc) backEdge(st *State, p *ssa.BasicBlock, succIdx int, li *loopInfo)
 		}
 		subst[ph] = e.valOf(ph.Edges[pidx])
 	}
-	e.phiSubst = subst
-	defer func() { e.phiSubst = nil }()
 	pos := p.Instrs[len(p.Instrs)-1].Pos()
 	if !pos.IsValid() {
 		pos = h.Instrs[0].Pos()
 	}
+	for _, c := range li.iters {
+		if !c.hasProp(e.prop) && e.prop != "" {
+			continue
+		}
+		env := e.fnEnvAt(st, e.entry, p, len(p.Instrs)-1)
+		env.lenient = true
+		g, err := e.evalBool(env, c.Expr)
+		if err != nil {
+			e.unsupportedOnce(fmt.Sprintf("loop %d iteration ensures %q: %v", li.ord, c.Src, err))
+			continue
+		}
+		e.obligePart("iter", clauseKey(c, fmt.Sprintf("loop%d", li.ord)), c.Props, pos, c.Src, cond, g)
+	}
+	e.phiSubst = subst
+	defer func() { e.phiSubst = nil }()
 	for _, c := range li.invs {
 		env := e.fnEnvAt(st, e.entry, h, -1)
 		g, err := e.evalBool(env, c.Expr)
